@@ -11,13 +11,18 @@ EVENTS       --file-mode {0o444,0o644,0o600} x --no-overwrite {off,on} x --omit-
 MODELS       target c, target py (all support files are templates -> _generate_header) and target cpp with one extra
              plain `.hpp` TYPE_SUPPORT resource supplied through the support module's own `list_support_files` seam
              (the only way to reach SupportGenerator._copy_header, incl. its shutil.copy branch: cpp has no default line
-             post-processors).  Over a two-type namespace ns.A.1.0, ns.sub.B.1.0.
+             post-processors; this model uses only the 36 `--generate-support only` events, see MODELS).
+             Over a two-type namespace ns.A.1.0, ns.sub.B.1.0.
 INITIAL      empty `out/`; one foreign 0o640 file; a 0o444 leftover with foreign content at a type-file path; the same at
-             a support-file path.  (cpp model: only the 36 `--generate-support only` events, see MODELS.)
+             a support-file path.
 SEARCH       level-synchronous BFS with deduplication by snapshot; a state is rebuilt by copying its stored directory
-             image (content+modes), never by replaying; thorough: 108 events, depth 3; quick: 24 core events + the
-             seed-selected 1/16 slice of the other 84, depth 2.  If a level discovers no new state the graph is closed
+             image (content+modes), never by replaying; thorough: all events, every history of length <= 3, then further
+             levels while one costs <= EXTRA_LEVEL_BUDGET runs (depth <= 6); quick: 24 core events (cpp: 16) + the
+             seed-selected 1/16 slice of the others, length <= 2.  If a level discovers no new state the graph is closed
              and every history of any length over the alphabet has been covered.
+CROSS-CHECKS the clean-run table is computed twice (cold process without template cache / warm process with it) and must
+             agree; 1/16 of the stored images and every violation are re-derived by really replaying the recorded history
+             from the initial state; the tree under test must not change while the search runs.
 
 INVARIANT on s --e--> s'   (R(e) = files, bytes and modes produced by e on an empty `out/`, computed once per event):
   overwrite allowed:   e must succeed (it succeeds on an empty directory and nothing but regular files left by earlier
